@@ -153,11 +153,13 @@ type kase struct {
 	direct   bool     // entry point SessionManager.ProcessCommand instead of HandlePacket
 	extra    int64    // != 0: every identity-like key is added to the body with this foreign value
 	extraKey []string // key:n | key:s
-	faults   uint64   // bit i: the i-th read (during the command) of the named mapping's main record fails transiently
-	conns    []connSpec
-	maps     []mapSpec
-	codes    []codeSpec
-	doms     []int64
+	stall    int      // >= 0: schedule — the command's handler is held at its first storage access until the executor's RPC wait has
+	//                   timed out and a second command from connection `stall` is in flight, then resumes (-1: no such schedule)
+	faults uint64 // bit i: the i-th read (during the command) of the named mapping's main record fails transiently
+	conns  []connSpec
+	maps   []mapSpec
+	codes  []codeSpec
+	doms   []int64
 }
 
 func atoi(s string) int { v, _ := strconv.Atoi(s); return v }
@@ -179,6 +181,11 @@ func parseCase(s string) (*kase, error) {
 		k.extra = atoi64(t[i+1])
 		k.extraKey = strings.Split(t[i+2], ",")
 		i += 3
+	}
+	k.stall = -1
+	if i+1 < len(t) && t[i] == "z" {
+		k.stall = atoi(t[i+1])
+		i += 2
 	}
 	if i+1 < len(t) && t[i] == "q" {
 		v, err := strconv.ParseUint(t[i+1], 10, 64)
@@ -293,11 +300,61 @@ type flakyStorage struct {
 	key   string
 	plan  uint64
 	reads int
+	gates map[string]*gate
+}
+
+// gate: a gated double. While a gate is armed for a key, the next Get / Exists of that key announces itself on `entered`
+// and blocks until the gate is opened; everything else goes straight to the real storage.
+type gate struct {
+	entered chan struct{}
+	open    chan struct{}
+	used    bool
+}
+
+func (f *flakyStorage) armGate(key string) *gate {
+	g := &gate{entered: make(chan struct{}, 1), open: make(chan struct{})}
+	f.mu.Lock()
+	if f.gates == nil {
+		f.gates = map[string]*gate{}
+	}
+	f.gates[key] = g
+	f.mu.Unlock()
+	return g
+}
+
+func (f *flakyStorage) disarmGates() {
+	f.mu.Lock()
+	for _, g := range f.gates {
+		g.used = true
+	}
+	f.mu.Unlock()
+}
+
+func (f *flakyStorage) pass(key string) {
+	f.mu.Lock()
+	g := f.gates[key]
+	if g == nil || g.used {
+		f.mu.Unlock()
+		return
+	}
+	g.used = true
+	f.mu.Unlock()
+	g.entered <- struct{}{}
+	select {
+	case <-g.open:
+	case <-time.After(20 * time.Second):
+	}
+}
+
+func (f *flakyStorage) Exists(key string) (bool, error) {
+	f.pass(key)
+	return f.MemoryStorage.Exists(key)
 }
 
 var errTransient = errors.New("storage: i/o timeout (verif: injected transient read fault)")
 
 func (f *flakyStorage) Get(key string) (any, error) {
+	f.pass(key)
 	f.mu.Lock()
 	if f.key != "" && key == f.key {
 		n := f.reads
@@ -1300,11 +1357,19 @@ func runOnce(k *kase, claimed bool) string {
 		if k.faults != 0 && k.m >= 0 && k.m < len(w.mapIDs) {
 			w.stor.arm(constants.KeyPrefixPortMapping+":"+w.mapIDs[k.m], k.faults)
 		}
-		if k.direct {
-			_, err = w.smOf(k.from).ProcessCommand(connID(k.from), cmd)
-		} else {
-			err = w.smOf(k.from).HandlePacket(&types.StreamPacket{ConnectionID: connID(k.from), Timestamp: time.Now(),
+		send := func() error {
+			if k.direct {
+				_, e := w.smOf(k.from).ProcessCommand(connID(k.from), cmd)
+				return e
+			}
+			return w.smOf(k.from).HandlePacket(&types.StreamPacket{ConnectionID: connID(k.from), Timestamp: time.Now(),
 				Packet: &packet.TransferPacket{PacketType: pt, CommandPacket: cmd}})
+		}
+		stalled := false
+		if gk := w.stallKey(k); gk != "" && k.stall >= 0 && k.stall < len(k.conns) && k.stall != k.from {
+			stalled, err = w.runStalled(k, gk, send)
+		} else {
+			err = send()
 		}
 		ret := "1"
 		if err != nil {
@@ -1374,10 +1439,15 @@ func runOnce(k *kase, claimed bool) string {
 		chg = append(chg, diffOne("c", w.codeIDs, before.codes, after.codes, before.codeT, after.codeT)...)
 		chg = append(chg, diffOne("d", w.domIDs, before.doms, after.doms, before.domO, after.domO)...)
 		var dlv, gone []string
+		secondRespSeen := false
 		for i, fs := range w.streams {
 			{
 				for _, p := range fs.snapshot() {
 					if p.ptype.IsCommandResp() {
+						if stalled && i == k.stall && !secondRespSeen {
+							secondRespSeen = true // the second command's own answer
+							continue
+						}
 						if i != k.from {
 							dlv = append(dlv, fmt.Sprintf("%d:resp%d:-", i, p.ctype)) // a response sent to someone who did not ask
 						}
@@ -1395,6 +1465,15 @@ func runOnce(k *kase, claimed bool) string {
 			}
 			if w.isGone(i) && !w.gone0[i] {
 				gone = append(gone, strconv.Itoa(i))
+			}
+		}
+		if stalled {
+			// the synchronous wait gave up (timeout error) although the handler went on: report what the command came to
+			switch rsp {
+			case "o":
+				ret = "1"
+			case "f":
+				ret = "0"
 			}
 		}
 		// digests: every payload pushed to a connection and every stored record created or changed, all fields,
@@ -1559,6 +1638,110 @@ func withFaults(cs string, plan int) string {
 		return cs
 	}
 	return strings.Replace(cs, " W ", fmt.Sprintf(" q %d W ", plan), 1)
+}
+
+// stallKey: the storage key whose first access holds the command's handler (commands that name one object).
+func (w *world) stallKey(k *kase) string {
+	if k.bad || k.resp || k.direct || k.noExec {
+		return ""
+	}
+	switch packet.CommandType(k.ctype) {
+	case packet.MappingGet, packet.MappingDelete:
+		if k.m >= 0 && k.m < len(w.mapIDs) {
+			return constants.KeyPrefixPortMapping + ":" + w.mapIDs[k.m]
+		}
+	case packet.HTTPDomainDelete:
+		if k.d >= 0 && k.d < len(w.domIDs) {
+			return repos.HTTPDomainMappingKey(w.domIDs[k.d])
+		}
+	case packet.HTTPDomainCreate:
+		sub := "fresh"
+		if k.d >= 0 && k.d < len(w.domSubs) {
+			sub = w.domSubs[k.d]
+		}
+		return repos.HTTPDomainIndexKey(sub + ".tunnox.net")
+	}
+	return ""
+}
+
+func (w *world) respCount() int {
+	n := 0
+	for _, fs := range w.streams {
+		for _, p := range fs.snapshot() {
+			if p.ptype.IsCommandResp() {
+				n++
+			}
+		}
+	}
+	return n
+}
+
+func (w *world) waitResp(n int) {
+	deadline := time.Now().Add(3 * time.Second)
+	for w.respCount() < n && time.Now().Before(deadline) {
+		runtime.Gosched()
+	}
+}
+
+// runStalled drives the schedule: the command's handler blocks at its first access of key gk; the executor's RPC wait
+// (shortened through the RPC manager's own setter) times out and HandlePacket returns; a second command (a subdomain
+// check, itself held at a gate so that it is in flight) is sent from connection k.stall; then the first handler resumes
+// and finishes, then the second. Returns whether the first handler really was held.
+func (w *world) runStalled(k *kase, gk string, send func() error) (bool, error) {
+	type rpcKnob interface{ VerifSetRPCTimeout(time.Duration) }
+	setTimeout := func(d time.Duration) {
+		for _, sm := range w.sms {
+			if ce, ok := sm.GetCommandExecutor().(rpcKnob); ok {
+				ce.VerifSetRPCTimeout(d)
+			}
+		}
+	}
+	setTimeout(25 * time.Millisecond)
+	g1 := w.stor.armGate(gk)
+	g2 := w.stor.armGate(repos.HTTPDomainIndexKey("second.tunnox.net"))
+	base := w.respCount()
+	ret := make(chan error, 1)
+	ret2 := make(chan error, 1)
+	held := make(chan bool, 1)
+	// both commands are handed to the server by the same goroutine, back to back (as one reader loop would): the second is
+	// dispatched right after the first one's synchronous wait has given up
+	go func() {
+		e := send()
+		ret <- e
+		if !<-held {
+			return
+		}
+		ret2 <- w.smOf(k.stall).HandlePacket(&types.StreamPacket{ConnectionID: connID(k.stall), Timestamp: time.Now(),
+			Packet: &packet.TransferPacket{PacketType: packet.JsonCommand, CommandPacket: &packet.CommandPacket{
+				CommandType: packet.HTTPDomainCheckSubdomain, CommandId: fmt.Sprintf("cmd-second-%d", atomic.AddInt64(&cmdSeq, 1)),
+				CommandBody: `{"subdomain":"second","base_domain":"tunnox.net"}`}}})
+	}()
+	select {
+	case err := <-ret:
+		held <- false
+		w.stor.disarmGates()
+		return false, err // refused before touching the object: no stall
+	case <-g1.entered:
+	}
+	// the first handler is held; its wait (25 ms) will give up. The second command gets a long wait: it is in flight, not
+	// timed out, when the first handler resumes
+	setTimeout(5 * time.Second)
+	held <- true
+	err := <-ret
+	select {
+	case <-g2.entered:
+	case <-time.After(3 * time.Second):
+	}
+	close(g1.open)
+	w.waitResp(base + 1)
+	close(g2.open)
+	select {
+	case <-ret2:
+	case <-time.After(6 * time.Second):
+	}
+	w.waitResp(base + 2)
+	w.stor.disarmGates()
+	return true, err
 }
 
 // addressedType: the commands whose body target_client_id is the addressee by protocol design (DNS forward,
@@ -1741,6 +1924,33 @@ func gen(out *vc.Out, r *vc.Rand, thorough bool) {
 						execCase(out, caseStr(ct, false, from, o, o, fmt.Sprint(o), false, 0, 0, 0, 0, w))
 					}
 					out.Count("small-scope:code-domain-ownership")
+				}
+			}
+		}
+	}
+	// 1h. schedules: the handler of a duplex command is held at its first access of the named object until the executor's RPC
+	//     wait has timed out and a second command from ANOTHER connection is in flight, then resumes (gated storage double,
+	//     RPC timeout shortened through the RPC manager's setter): sender identity x object ownership x second connection
+	withStall := func(cs string, j int) string { return strings.Replace(cs, " W ", fmt.Sprintf(" z %d W ", j), 1) }
+	for _, ct := range []int{85, 86, 75, 76} {
+		for from := 0; from < len(conns); from++ {
+			for _, o := range []int{0, 1, 2, -1} {
+				if (ct == 85) != (o == -1 || o == 0) && ct == 85 {
+					continue
+				}
+				if ct != 85 && o == -1 {
+					continue
+				}
+				for _, j := range []int{0, 1, 2, 3} {
+					if j == from || (!thorough && j != (from+1)%3 && j != 3) {
+						continue
+					}
+					base := caseStr(ct, false, from, 0, 0, "-", false, o, B, o, o, std)
+					execCase(out, withStall(base, j))
+					if thorough {
+						execCase(out, withStall(withExtras(reClaim(base, fmt.Sprintf("@c%d", j), "@c0", "@c1"), B), j))
+					}
+					out.Count("schedule:handler-outlives-rpc-wait")
 				}
 			}
 		}
